@@ -1852,6 +1852,85 @@ func overlappingCloses() string {
 	return "c19 check close-returned-before-the-connections-were-closed " + verdict
 }
 
+// publishWindowScenario (C09): a freshly looked-up region has just been put into the location cache
+// (replacing an older overlapping one) and the goroutine that put it there is held at its next
+// step (removing the old region from the connection cache; held through the connection cache's
+// lock). A request for a key of the new region arrives in exactly that window. The region was
+// published marked unavailable, so the request waits for the one establisher; everybody is served.
+func publishWindowScenario(api string) string {
+	setSleepOverride(fastBackoff)
+	c := newSimCluster()
+	old := c.addRegion(nil, []byte("t"), nil, []byte("m"), "rs1:1")
+	c.addRegion(nil, []byte("t"), []byte("m"), nil, "rs1:1")
+	sc := newSimClient(c)
+	defer sc.cl.Close()
+	get := func(k string) string {
+		ctx, cancel := context.WithTimeout(context.Background(), 5*time.Second)
+		defer cancel()
+		g, _ := hrpc.NewGet(ctx, []byte("t"), []byte(k))
+		_, err := sc.cl.Get(g)
+		return classOf(err)
+	}
+	warm := get("a") // only the left region is cached
+	// the two regions are merged into a newer one on another server
+	c.mu.Lock()
+	var keep []*simRegion
+	for _, r := range c.regions {
+		if string(r.fq()) != "t" {
+			keep = append(keep, r)
+		}
+	}
+	c.regions = keep
+	c.mu.Unlock()
+	_ = old
+	c.addRegion(nil, []byte("t"), nil, nil, "rs2:1")
+	sc.v.ConnCacheLock()
+	first := make(chan string, 1)
+	go func() {
+		if api == "cacheregions" {
+			if err := sc.cl.CacheRegions([]byte("t")); err != nil {
+				first <- classOf(err)
+				return
+			}
+			first <- "ok"
+			return
+		}
+		first <- get("x") // a cache miss: findRegion publishes the merged region
+	}()
+	held := false
+	for i := 0; i < 1500; i++ {
+		if goroutinesIn("(*clientRegionCache).del") > 0 {
+			held = true
+			break
+		}
+		time.Sleep(time.Millisecond)
+	}
+	second := make(chan string, 1)
+	go func() { second <- get("y") }()
+	time.Sleep(30 * time.Millisecond)
+	sc.v.ConnCacheUnlock()
+	r1, r2 := "blocked", "blocked"
+	select {
+	case r1 = <-first:
+	case <-time.After(6 * time.Second):
+	}
+	select {
+	case r2 = <-second:
+	case <-time.After(6 * time.Second):
+	}
+	settle()
+	unavailable := 0
+	for _, ok := range sc.v.VerifAvailability() {
+		if !ok {
+			unavailable++
+		}
+	}
+	if warm != "ok" || !held {
+		r1 = fmt.Sprintf("setup-%s-held%v", warm, held)
+	}
+	return fmt.Sprintf("c04 script publish-window-%s %s,%s unavailable=%d", api, r1, r2, unavailable)
+}
+
 type zkFixed string
 
 func (z zkFixed) LocateResource(zk.ResourceName) (string, error) { return string(z), nil }
@@ -2013,6 +2092,7 @@ func init() {
 			}
 			if shard == 4%nsh {
 				emit(dialCloseScenario("close"))
+				emit(dialCloseScenario("close-peer-gone"))
 				emit(dialCloseScenario("ctx"))
 			}
 		})
@@ -2040,6 +2120,10 @@ func init() {
 				emit(strings.Replace(probeRefusedThenMoved(), "c04 script", "c09 script", 1))
 				emit(strings.Replace(probeFatalScenario(), "c04 script", "c09 script", 1))
 				emit(strings.Replace(metaSlowScenario(true), "c04 script", "c09 script", 1))
+			}
+			if shard == 4%nsh && !raceChild {
+				emit(strings.Replace(publishWindowScenario("cacheregions"), "c04 script", "c09 script", 1))
+				emit(strings.Replace(publishWindowScenario("get"), "c04 script", "c09 script", 1))
 			}
 			if shard == 3%nsh && !raceChild {
 				// a connection dies while a request is being written on it (gated connection, C03's
@@ -2168,6 +2252,7 @@ func init() {
 			})
 		}
 		jobs = append(jobs, overlappingCloses)
+		jobs = append(jobs, func() string { return dialCloseScenario("close") }, func() string { return dialCloseScenario("close-peer-gone") })
 		jobs = append(jobs,
 			func() string { return strings.Replace(slowCloseScenario(), "c03 script", "c19c script", 1) },
 			func() string { return strings.Replace(blockedWriteCloseScenario(), "c03 script", "c19c script", 1) })
